@@ -196,6 +196,18 @@ class Writer:
                 f"(in {segment_addresses_str})."
             )
 
+        if data_start < 0 or data_length < 0 or data_start + data_length > len(self.data):
+            raise FlipJumpWriteFjmException(
+                f"segment data range [{data_start}, {data_start + data_length}) is outside the added data "
+                f"(of length {len(self.data)}) (in {segment_addresses_str})."
+            )
+
+        if data_length % 2 == 1:
+            raise FlipJumpWriteFjmException(
+                f"data-length must be even (an integer number of ops), got {data_length} "
+                f"(in {segment_addresses_str})."
+            )
+
         self._validate_segment_not_overlapping(segment_start, segment_length, data_start, data_length)
 
         if self.version in (FJMVersion.RelativeJumpVersion, FJMVersion.CompressedVersion):
